@@ -1,7 +1,7 @@
 /- Line-protocol driver for C01 (imports only Model/Gen modules).
    `exceptions`                      -> one line per (production, stack) failing the local check, then `END`
    `wf`                              -> effect rows that are not well formed, then `END`
-   `T <callback> <n> <thrown> F T R S  F' T' R' S'`
+   `T <callback> <n> <thrown> F T R S E M U G L  F' T' R' S' E' M' U' G' L'`
                                      -> `ok` | `MISMATCH ...` : predicted vs observed stack sizes of one traced call of
                                         the real library (harness/c01_trace.cpp) -/
 import UtapModel.Model.C01Effect
@@ -19,15 +19,16 @@ def wfLines : List String :=
   CB.all.flatMap (fun cb => (Stack.all.filter (fun s => !(effect cb s).wf)).map (fun s => s!"BADROW {cb.name} {s.name}"))
 
 def observed : List Stack := [.F, .T, .R, .S]
+def pointers : List Stack := [.E, .M, .U, .G, .L]
 
 def checkTrace (ws : List String) : String :=
   match ws with
   | name :: rest =>
     match CB.ofName? name, rest.mapM String.toInt? with
     | some cb, some (n :: thrown :: nums) =>
-      if nums.length != 8 then "bad-op" else
-      let before := nums.take 4
-      let after := nums.drop 4
+      if nums.length != 18 then "bad-op" else
+      let before := nums.take 9
+      let after := nums.drop 9
       let n' := n.toNat
       let probs := (List.range 4).filterMap (fun i =>
         let s := observed.getD i .F
@@ -39,8 +40,19 @@ def checkTrace (ws : List String) : String :=
         let dt := ef.t0 + ef.tN * n
         if ef.reset then (if a = 0 ∨ a = b then none else some s!"{s.name}: reset expected, {b}->{a}")
         else if need > b then some s!"{s.name}: needs {need} has {b}"
-        else if thrown = 0 then (if a = b + dn then none else some s!"{s.name}: {b}->{a} predicted {b + dn}")
-        else (if (ef.canThrow ∧ a = b + dt) ∨ a = b + dn then none else some s!"{s.name}: {b}->{a} (thrown) predicted {b + dt}"))
+        else if a = b + dn ∨ (ef.canThrow ∧ a = b + dt) then none
+        else some s!"{s.name}: {b}->{a} (outcome {thrown}) predicted {b + dn}{if ef.canThrow then s!" or {b + dt}" else ""}")
+      -- pointer stacks: observed is null / non-null (0/1); the model counts sets
+      let pprobs := (List.range 5).filterMap (fun i =>
+        let s := pointers.getD i .E
+        let ef := effect cb s
+        let b := before.getD (4 + i) 0
+        let a := after.getD (4 + i) 0
+        -- (a dereference of a null pointer does not return: it shows up as a died op, not here)
+        if ef.reset ∧ ef.bump then none
+        else if ef.reset then (if a = 0 then none else some s!"{s.name}: reset expected, still set")
+        else if ef.d0 > 0 then (if a = 1 ∨ (ef.canThrow ∧ a = b) then none else some s!"{s.name}: set expected, {b}->{a}")
+        else if a = b then none else some s!"{s.name}: {b}->{a} but the table has no set/reset")
       -- the virtual stacks of `types`: n is the value of the static counter at the call
       let vprobs :=
         if cb.name == "type_array_of_type" then
@@ -49,7 +61,28 @@ def checkTrace (ws : List String) : String :=
         else if cb.name == "type_array_of_size" then
           (if before.getD 1 0 - n < 1 then [s!"typeBase: needs 1 has {before.getD 1 0 - n}"] else [])
         else []
-      match probs ++ vprobs with
+      match probs ++ pprobs ++ vprobs with
+      | [] => "ok"
+      | l => "MISMATCH " ++ name ++ " " ++ String.intercalate "; " l
+    | none, _ => "UNKNOWN-CALLBACK " ++ name
+    | _, _ => "bad-op"
+  | [] => "bad-op"
+
+/-- `Q <callback> <n> <outcome> F Q F' Q'`: a call of the real TigaPropertyBuilder (forwarding tracer) -/
+def checkQ (ws : List String) : String :=
+  match ws with
+  | name :: rest =>
+    match CB.ofName? name, rest.mapM String.toInt? with
+    | some cb, some [n, thrown, f0, q0, f1, q1] =>
+      let one (s : Stack) (b a : Int) : Option String :=
+        let ef := effect cb s
+        let need : Int := ((ef.need0 + ef.needN * n.toNat : Nat) : Int)
+        let dn := ef.d0 + ef.dN * n
+        let dt := ef.t0 + ef.tN * n
+        if need > b then some s!"{s.name}: needs {need} has {b}"
+        else if a = b + dn ∨ (ef.canThrow ∧ a = b + dt) then none
+        else some s!"{s.name}: {b}->{a} (outcome {thrown}) predicted {b + dn}{if ef.canThrow then s!" or {b + dt}" else ""}"
+      match [one .F f0 f1, one .Q q0 q1].filterMap id with
       | [] => "ok"
       | l => "MISMATCH " ++ name ++ " " ++ String.intercalate "; " l
     | none, _ => "UNKNOWN-CALLBACK " ++ name
@@ -66,6 +99,7 @@ def stepLine (line : String) (out : IO.FS.Stream) : IO Unit := do
       for l in wfLines do out.putStrLn l
       out.putStrLn "END"
   | "T" :: rest => out.putStrLn (checkTrace rest)
+  | "Q" :: rest => out.putStrLn (checkQ rest)
   | _ => out.putStrLn "bad-op"
 
 partial def loop (h : IO.FS.Stream) (out : IO.FS.Stream) : IO Unit := do
